@@ -42,6 +42,26 @@ void h_amax_axis(void){ DECL; i32 ax = IN_AXIS(); u32 m = 1u << norm(ax, 3); u64
 void h_amin_axis(void){ DECL; i32 ax = IN_AXIS(); u32 m = 1u << norm(ax, 3); u64 nd = ref_shape(shape, m, 0, ex); in_index(idx, ex, nd);
   int r = k_amin_axis(shape, data, (u32)ax, ARGS); SHAPE_OK(nd);
   ASSERT(out == ref_minmax(shape, data, m, idx, 0), "amin(axis) == smallest of the matching elements"); OBS(out); REACHED(); }
+/* signed variants: the same reference with a signed comparison */
+static u32 ref_minmax_i32(const u64* shape, const u32* data, u32 mask, const u64* idx, int want_max){
+  u64 fixed[3]; u64 j = 0; for (int k = 0; k < 3; k++){ if ((mask >> k) & 1) fixed[k] = 0; else fixed[k] = idx[j++]; }
+  i32 acc = 0; int first = 1;
+  for (u64 i0 = 0; i0 < MAXE; i0++) for (u64 i1 = 0; i1 < MAXE; i1++) for (u64 i2 = 0; i2 < MAXE; i2++){
+    int in0 = (mask & 1) ? i0 < shape[0] : i0 == 0, in1 = (mask & 2) ? i1 < shape[1] : i1 == 0, in2 = (mask & 4) ? i2 < shape[2] : i2 == 0;
+    if (in0 && in1 && in2){ u64 c0 = (mask & 1) ? i0 : fixed[0], c1 = (mask & 2) ? i1 : fixed[1], c2 = (mask & 4) ? i2 : fixed[2];
+      i32 e = (i32)data[(c0*shape[1] + c1)*shape[2] + c2];
+      if (first){ acc = e; first = 0; } else if (want_max ? e > acc : e < acc) acc = e; } }
+  return (u32)acc;
+}
+void h_amax_axis_i32(void){ DECL; i32 ax = IN_AXIS(); u32 m = 1u << norm(ax, 3); u64 nd = ref_shape(shape, m, 0, ex); in_index(idx, ex, nd);
+  int r = k_amax_axis_i32(shape, data, (u32)ax, ARGS); SHAPE_OK(nd);
+  ASSERT(out == ref_minmax_i32(shape, data, m, idx, 1), "amax(axis) == largest of the matching SIGNED elements"); OBS(out); REACHED(); }
+void h_amin_axis_i32(void){ DECL; i32 ax = IN_AXIS(); u32 m = 1u << norm(ax, 3); u64 nd = ref_shape(shape, m, 0, ex); in_index(idx, ex, nd);
+  int r = k_amin_axis_i32(shape, data, (u32)ax, ARGS); SHAPE_OK(nd);
+  ASSERT(out == ref_minmax_i32(shape, data, m, idx, 0), "amin(axis) == smallest of the matching SIGNED elements"); OBS(out); REACHED(); }
+void h_amax_none_i32(void){ DECL; u64 nd = 0; for (int k = 0; k < 4; k++){ idx[k] = 0; ex[k] = 0; }
+  int r = k_amax_none_i32(shape, data, ARGS); SHAPE_OK(nd);
+  ASSERT(out == ref_minmax_i32(shape, data, 7u, idx, 1), "amax() == largest SIGNED element"); OBS(out); REACHED(); }
 void h_amax_none(void){ DECL; u64 nd = 0; for (int k = 0; k < 4; k++){ idx[k] = 0; ex[k] = 0; }
   int r = k_amax_none(shape, data, ARGS); SHAPE_OK(nd);
   ASSERT(out == ref_minmax(shape, data, 7u, idx, 1), "amax() == largest element"); OBS(out); REACHED(); }
